@@ -8949,7 +8949,7 @@ S_<TN_, TA_, EmptyT<TA_>>::wrapSelect(Control& HFSM2_IF_LOG_STATE_METHOD(control
 	HFSM2_LOG_STATE_METHOD(&Empty::select,
 						   Method::SELECT);
 
-	return INVALID_PRONG;
+	return 0;
 }
 
 #if HFSM2_UTILITY_THEORY_AVAILABLE()
